@@ -23,6 +23,7 @@ inductive Tok
   | atom (n : Nat)              -- an identifier / number / anything `Dot_Fun_Array` takes as one value
   | sym (s : Nat)               -- an operator symbol
   | lp | rp | q | colon
+  | asg (s : Nat)               -- an assignment symbol (`=`, `:=`, `+=` …): read by Equation(), never by Operator()
 deriving DecidableEq, Repr, Inhabited
 
 inductive E
@@ -120,5 +121,43 @@ def wf (c : Cfg) : E → Bool
   | .pre s e => c.pfx s && wf c e
   | .bin s a b => (match c.bin s with | some l => decide (1 ≤ l ∧ l < c.N) | none => false) && wf c a && wf c b
   | .tern x t e => wf c x && wf c t && wf c e
+
+/-! ### Equation(): `Operator()` then, if one of the assignment symbols follows, `Equation()` again — assignments nest to the right -/
+
+/-- what Equation() builds: an operator expression, or `lhs <asg> (rest of the equation)` -/
+inductive Q
+  | expr (e : E)
+  | eq (s : Nat) (l : E) (r : Q)      -- Equation node: text = the symbol, children = left-hand side, right-hand side
+deriving DecidableEq, Repr, Inhabited
+
+inductive ResQ
+  | ok (x : Q) (rest : List Tok)
+  | nomatch | error | fuel
+deriving DecidableEq, Repr, Inhabited
+
+/-- `asgs`: the symbols of the initializer list in Equation() -/
+def runEq (c : Cfg) (asgs : List Nat) : Nat → List Tok → ResQ
+  | 0, _ => .fuel
+  | f + 1, ts =>
+    match run c f (.level 0 ts) with
+    | .ok x (.asg s :: r) =>
+      if asgs.contains s then
+        match runEq c asgs f r with
+        | .ok y r' => .ok (.eq s x y) r'
+        | .nomatch => .error                       -- "Incomplete equation"
+        | e => e
+      else .ok (.expr x) (.asg s :: r)
+    | .ok x r => .ok (.expr x) r
+    | .nomatch => .nomatch
+    | .error => .error
+    | .fuel => .fuel
+
+def rawQ (c : Cfg) : Q → List Tok
+  | .expr e => raw c e
+  | .eq s l r => raw c l ++ .asg s :: rawQ c r
+
+def wfQ (c : Cfg) (asgs : List Nat) : Q → Bool
+  | .expr e => wf c e
+  | .eq s l r => asgs.contains s && wf c l && wfQ c asgs r
 
 end ChaiVerif.Prec
